@@ -344,3 +344,43 @@ func VerifC09ForwardAnyBW() {
 	err := l.CheckHtlcForward(hash, x.in, x.out, x.inTL, x.outTL, x.inb, x.height, lnwire.ShortChannelID{}, nil)
 	c09Check(x, err)
 }
+
+// VerifC09CalcFeeExact: the inbound-fee kernel alone. For every amount up to
+// 2^41 msat (> 2 x the maximum channel size, the largest value out+outFee can
+// take) and every int32 base/rate, CalcFee equals
+// base + trunc(clamp(rate)*amt/1e6) computed without wrap-around.
+func VerifC09CalcFeeExact() {
+	vOverflow("github.com/lightningnetwork/lnd/htlcswitch.c09CalcFeeRef")
+	amt := vU64("amt")
+	vAssume(amt < 1<<41)
+	f := models.InboundFee{Base: vI32("inboundBase"), Rate: vI32("inboundRate")}
+	got := f.CalcFee(lnwire.MilliSatoshi(amt))
+	want := c09CalcFeeRef(f, amt)
+	vObserve("got", got)
+	vAssert(got == want, "CalcFee equals base + trunc(rate*amt/1e6) in exact arithmetic")
+	if vNative() {
+		rate := int64(f.Rate)
+		if rate > 10_000_000 {
+			rate = 10_000_000
+		}
+		if rate < -10_000_000 {
+			rate = -10_000_000
+		}
+		exact := new(big.Int).Mul(big.NewInt(rate), new(big.Int).SetUint64(amt))
+		exact.Quo(exact, big.NewInt(1000000))
+		exact.Add(exact, big.NewInt(int64(f.Base)))
+		vAssert(exact.IsInt64() && exact.Int64() == got, "exact: CalcFee agrees with unbounded-integer arithmetic")
+	}
+}
+
+func c09CalcFeeRef(f models.InboundFee, amt uint64) int64 {
+	rate := int64(f.Rate)
+	if rate > 10_000_000 {
+		rate = 10_000_000
+	}
+	if rate < -10_000_000 {
+		rate = -10_000_000
+	}
+	a := int64(amt)
+	return int64(f.Base) + rate*(a/1000000) + rate*(a%1000000)/1000000
+}
